@@ -17,7 +17,7 @@ import (
 
 func init() { mon.Register("C10", buildC10) }
 
-var tmplNames = []string{"a", "B", "name", "x1", "_u", "é", "Ünï", "шляпа", "v-1", "Item", "straße"}
+var tmplNames = []string{"a", "B", "name", "x1", "_u", "é", "Ünï", "шляпа", "v-1", "Item", "straße", "username", "item-10"}
 var tmplTextPool = []string{"\u0080", "\u007f\u0080\u0081\u00a0", "Hello", " ", ", ", "\n", "\t", "x", "}", "{", "} }", "'", "\"quoted\"", "it's", "/", "\\", "#", "^", "!", "é", "шляпа", "€", "😀", "𝄞", "￿", "<b>", "&amp;", "1 < 2", "if", "unless", "a.b", "  ", "\r\n", "%", "{ {", "}}"}
 var tmplValuePool = []string{"", "v", "Alice", "1", "0", " ", "a\"b", "back\\slash", "sl/ash", "line\nbreak", "tab\t", "\r", "\b\f", "é", "шляпа", "😀", "{{a}}", "}}", "<x>", "true"}
 var tmplPads = []string{"", "", "", "", " ", "  ", "\t", "\n", " ", "\v", "\f", "\x1f", "\r\n", " \x01", "\x00"}
@@ -401,7 +401,21 @@ func mutateTemplate(segs []model.Seg, kind string, site int) (string, bool) {
 		if i < 0 {
 			return "", false
 		}
-		s[i].Text = strings.Replace(s[i].Text, s[i].Node.Text, "zz", 1)
+		name := []rune(s[i].Node.Text)
+		other := "zz"
+		switch site % 4 { // besides an unrelated name: a proper prefix of the section's name, the name extended, the name with another last letter
+		case 1:
+			if len(name) > 1 {
+				other = string(name[:len(name)-1])
+			}
+		case 2:
+			other = string(name) + "x"
+		case 3:
+			if len(name) > 1 {
+				other = string(name[:len(name)-1]) + "q"
+			}
+		}
+		s[i].Text = strings.Replace(s[i].Text, s[i].Node.Text, other, 1)
 	case "mismatched brace counts":
 		i := pick(func(i int) bool { return s[i].Kind != "text" })
 		if i < 0 {
